@@ -343,3 +343,507 @@ def eval_c02(item):
 
 def schema_problems(_):
     return Gr._STATE.get("schema_problems", [])
+
+
+# ---------------------------------------------------------------------------------------------- C14: frozen after submit / seal
+def _valid_alt(G, B, l, f):
+    """A *type-correct* new value for field f of node l (so that a rejection can only come from the seal)."""
+    from .genspace import ALPHA
+    n = G["nodes"][l]
+    kind = f["kind"]
+    cur = n["args"].get(f["name"], f["default"])
+    if kind in ALPHA:
+        return Gr.to_py(_alt(kind, cur), B)
+    if kind == "genpath":
+        from pathlib import Path
+        return Path("/elsewhere/file.txt")
+    base = kind.split("cfg:")[1]
+    cands = [x for x in G["nodes"] if R.isa(node_cls(G, x), base) and x in B.objs]
+    # tasks used as values must have been submitted
+    cands = [x for x in cands if not is_task(G, x) or x in B.submitted]
+    if kind.startswith("opt:cfg:") or kind.startswith("cfg:"):
+        curref = cur["ref"] if R.is_ref(cur) else None
+        for x in cands:
+            if x != curref:
+                return B.objs[x]
+        return None if curref is not None and kind.startswith("opt") else "SKIP"
+    if kind.startswith("list:cfg:"):
+        return [B.objs[x] for x in cands[:1]] if not cur else []
+    if kind.startswith("dict:cfg:"):
+        return {"z": B.objs[cands[0]]} if (cands and not (cur or {"dict": {}})["dict"]) else {}
+    return "SKIP"
+
+
+def eval_c14(item):
+    """item: {"G":..., "route": "seal"|"submit"}.  After sealing, every mutation attempt on every reachable node must
+    raise and every identifier / the job directory must stay what it was."""
+    import universe.g as U
+    from experimaestro import setmeta
+    G, route = item["G"], item["route"]
+    out = {"attempts": 0, "problems": [], "sig": sig_digest(G), "nodes": 0}
+    root = G["root"]
+    try:
+        B = Gr.build(G)
+        submittable = is_task(G, root) and not Gr.has_cycle(G)
+        if route == "submit":
+            if not submittable:
+                return out
+            Gr.seal_root(G, B)
+        else:
+            from experimaestro.xpmutils import DirectoryContext
+            from pathlib import Path
+            B.objs[root].__xpm__.seal(DirectoryContext(Path(Gr._STATE["dir"]) / "sealed"))
+        objs = {l: (B.tasks[l] if l in B.tasks else B.objs[l]) for l in G["nodes"] if "output_of" not in G["nodes"][l]}
+        if route == "seal" and G["nodes"][root].get("init"):
+            # init tasks are handed over at submit(): with a bare seal() they are not part of the root's graph
+            import copy
+            H = copy.deepcopy(G)
+            H["nodes"][root]["init"] = []
+            keep = set(R.reachable(H, root))
+            objs = {l: o for l, o in objs.items() if l in keep}
+        # output nodes: the marked output configuration itself
+        for l, n in G["nodes"].items():
+            if "output_of" in n and n["output_of"] in objs:
+                objs[l] = B.objs[l]
+        base = {l: (Gr.ident(o), Gr.raw_ident(o)) for l, o in objs.items()}
+        relpath = str(B.tasks[root].__xpm__.job.relpath) if route == "submit" else None
+    except Exception as e:  # noqa
+        out["problems"].append({"kind": "setup-raises", "error": f"{type(e).__name__}: {e}", "tb": traceback.format_exc()[-1200:]})
+        return out
+    out["nodes"] = len(objs)
+
+    def check_ids(after):
+        for l, o in objs.items():
+            now = (Gr.ident(o), Gr.raw_ident(o))
+            if now != base[l]:
+                out["problems"].append({"kind": "identifier-changed", "label": l, "after": after, "before": base[l][0], "now": now[0]})
+                base[l] = now
+        if relpath is not None and str(B.tasks[root].__xpm__.job.relpath) != relpath:
+            out["problems"].append({"kind": "relpath-changed", "after": after})
+
+    for l, o in sorted(objs.items()):
+        n = G["nodes"][l]
+        cls = SCHEMA["out"] if "output_of" in n else SCHEMA[n["cls"]]
+        if not o.__xpm__._sealed:
+            out["problems"].append({"kind": "not-sealed", "label": l, "cls": cls["tid"]})
+        for f in cls["fields"]:
+            if "output_of" in n:
+                val = 5
+            else:
+                val = _valid_alt(G, B, l, f)
+            if isinstance(val, str) and val == "SKIP":
+                continue
+            out["attempts"] += 1
+            before = o.__xpm__.values.get(f["name"], "<unset>")
+            try:
+                setattr(o, f["name"], val)
+                out["problems"].append({"kind": "assignment-accepted", "label": l, "field": f["name"], "cls": cls["tid"], "fkind": f["kind"]})
+            except Exception:
+                pass
+            if o.__xpm__.values.get(f["name"], "<unset>") is not before and o.__xpm__.values.get(f["name"], "<unset>") != before:
+                out["problems"].append({"kind": "value-changed", "label": l, "field": f["name"], "cls": cls["tid"]})
+            check_ids(f"assign {l}.{f['name']}")
+        for flag in (True, False):
+            out["attempts"] += 1
+            try:
+                setmeta(o, flag)
+                out["problems"].append({"kind": "set-meta-accepted", "label": l, "cls": cls["tid"]})
+            except BaseException:
+                pass
+            check_ids(f"setmeta {l}")
+        out["attempts"] += 1
+        try:
+            o.add_pretasks(U.PreT(k=9))
+            out["problems"].append({"kind": "add-pretasks-accepted", "label": l, "cls": cls["tid"]})
+        except Exception:
+            pass
+        check_ids(f"add_pretasks {l}")
+    return out
+
+
+# ---------------------------------------------------------------------------------------------- C17: generated paths
+def _gen_paths(G, B, presealed):
+    """(label, field) -> generated path, for nodes sealed by the root's submission."""
+    out = {}
+    for l, n in G["nodes"].items():
+        if "output_of" in n or l in presealed:
+            continue
+        o = B.tasks[l] if l in B.tasks else B.objs[l]
+        for f in SCHEMA[n["cls"]]["fields"]:
+            if f["kind"] == "genpath":
+                out[(l, f["name"])] = o.__xpm__.values.get(f["name"])
+    return out
+
+
+def eval_c17(item):
+    from pathlib import Path
+    G = item["G"]
+    out = {"paths": 0, "problems": [], "sig": sig_digest(G), "positions": []}
+    root = G["root"]
+    if not (is_task(G, root) and not Gr.has_cycle(G)):
+        return out
+    runs = []
+    try:
+        for _ in range(2):
+            B = Gr.build(G)
+            presealed = {l for l in G["nodes"] if "output_of" not in G["nodes"][l]
+                         and (B.tasks[l] if l in B.tasks else B.objs[l]).__xpm__._sealed}
+            Gr.seal_root(G, B)
+            job = B.tasks[root].__xpm__.job
+            runs.append((job.path, _gen_paths(G, B, presealed)))
+    except Exception as e:  # noqa
+        out["problems"].append({"kind": "raises", "error": f"{type(e).__name__}: {e}", "tb": traceback.format_exc()[-1200:]})
+        return out
+    jobpath, paths = runs[0]
+    out["paths"] = len(paths)
+    seen = {}
+    for (l, f), p in sorted(paths.items()):
+        if p is None:
+            out["problems"].append({"kind": "not-generated", "label": l, "field": f})
+            continue
+        p = Path(p)
+        try:
+            rel = p.resolve().relative_to(Path(jobpath).resolve())
+            out["positions"].append(str(rel))
+        except ValueError:
+            out["problems"].append({"kind": "outside-job-directory", "label": l, "field": f, "path": str(p), "job": str(jobpath)})
+            continue
+        if str(rel) in seen:
+            out["problems"].append({"kind": "same-path", "a": list(seen[str(rel)]), "b": [l, f], "path": str(rel)})
+        seen[str(rel)] = (l, f)
+    j2, p2 = runs[1]
+    r1 = {k: (str(Path(v).relative_to(jobpath)) if v is not None and Path(v).is_relative_to(jobpath) else str(v)) for k, v in paths.items()}
+    r2 = {k: (str(Path(v).relative_to(j2)) if v is not None and Path(v).is_relative_to(j2) else str(v)) for k, v in p2.items()}
+    if r1 != r2 or str(jobpath) != str(j2):
+        out["problems"].append({"kind": "not-reproducible", "first": {f"{k[0]}.{k[1]}": v for k, v in r1.items()}, "second": {f"{k[0]}.{k[1]}": v for k, v in r2.items()}})
+    return out
+
+
+# ---------------------------------------------------------------------------------------------- C12 / C13: reload and instances
+TID2CLS = {}
+
+
+def _cls_key_of(obj, instance):
+    """Schema key of a reloaded object (by python class name)."""
+    import universe.g as U
+    if not TID2CLS:
+        for k, c in SCHEMA.items():
+            TID2CLS[c["py"]] = k
+    for k in type(obj).__mro__:
+        if k.__name__ in TID2CLS:
+            return TID2CLS[k.__name__]
+    raise KeyError(type(obj).__mro__)
+
+
+def _val_desc(v, label_of):
+    from enum import Enum
+    from pathlib import Path
+    from experimaestro.core.objects import Config
+    if v is None or isinstance(v, (bool, int, float, str)):
+        return v
+    if isinstance(v, Enum):
+        return {"enum": v.name}
+    if isinstance(v, Path):
+        return {"path": str(v)}
+    if isinstance(v, list):
+        return [_val_desc(x, label_of) for x in v]
+    if isinstance(v, dict):
+        return {"dict": {k: _val_desc(x, label_of) for k, x in v.items()}}
+    if isinstance(v, Config):
+        return {"ref": label_of(v)}
+    return {"UNKNOWN": repr(v)}
+
+
+def extract(root_obj, instance=False, with_generated=False):
+    """Description of a (re)loaded graph: walks real objects.  For runtime instances only values and wiring exist."""
+    nodes, labels, todo = {}, {}, []
+
+    def label_of(o):
+        if id(o) not in labels:
+            labels[id(o)] = f"x{len(labels)}"
+            todo.append(o)
+        return labels[id(o)]
+
+    label_of(root_obj)
+    keep = []
+    while todo:
+        o = todo.pop()
+        keep.append(o)
+        l = labels[id(o)]
+        key = _cls_key_of(o, instance)
+        if not instance:
+            x = o.__xpm__
+            if x.task is not None and x.task is not o:
+                nodes[l] = {"output_of": label_of(x.task), "v": x.values.get("v")}
+                continue
+        n = {"cls": key, "args": {}, "meta": None, "pre": [], "init": []}
+        for f in SCHEMA[key]["fields"]:
+            if f["generated"] and not with_generated:
+                continue
+            if instance:
+                v = getattr(o, f["name"], "<missing>")
+            else:
+                v = o.__xpm__.values.get(f["name"], "<missing>")
+            n["args"][f["name"]] = _val_desc(v, label_of)
+        if not instance:
+            n["meta"] = o.__xpm__.meta
+            n["pre"] = [label_of(p) for p in o.__xpm__.pre_tasks]
+            n["init"] = [label_of(p) for p in o.__xpm__.init_tasks]
+        nodes[l] = n
+    return {"root": "x0", "nodes": nodes}, keep
+
+
+def normalize(G, instance=False, root_init=True):
+    """Fills every parameter explicitly (schema defaults, coercions) so that two descriptions can be compared."""
+    import copy
+    H = {"root": G["root"], "nodes": {}}
+    for l in R.reachable(G, G["root"]) if not instance else _reach_args(G):
+        n = G["nodes"][l]
+        if "output_of" in n:
+            if instance:
+                # at run time an output is a plain Out object
+                t = G["nodes"][n["output_of"]]
+                H["nodes"][l] = {"cls": "out", "args": {"v": t["args"].get("x", 0)}, "meta": None, "pre": [], "init": []}
+            else:
+                H["nodes"][l] = {"output_of": n["output_of"]}
+            continue
+        args = R.node_args(G, l)
+        for f in SCHEMA[n["cls"]]["fields"]:
+            if not f["generated"]:
+                args[f["name"]] = R._coerce(f["kind"], args[f["name"]])
+        m = {"cls": n["cls"], "args": args, "meta": None if instance else n.get("meta"),
+             "pre": [] if instance else list(n.get("pre", [])),
+             "init": [] if (instance or (l == G["root"] and not root_init)) else list(n.get("init", []))}
+        H["nodes"][l] = m
+    return H
+
+
+def _reach_args(G):
+    """Reachability through parameter values only (what a runtime object graph shows)."""
+    seen, stack = [], [G["root"]]
+    while stack:
+        l = stack.pop()
+        if l in seen:
+            continue
+        seen.append(l)
+        n = G["nodes"][l]
+        if "output_of" in n:
+            continue
+        for v in n["args"].values():
+            stack.extend(R.refs_in(v))
+    return seen
+
+
+def _canon_json(G):
+    from .genspace import canon
+    return json.dumps(canon(G), sort_keys=True)
+
+
+def _base_cls(G):
+    """Loaded objects of deprecated / twin classes keep their own python class: compare as is."""
+    return G
+
+
+def eval_c12(item):
+    """Routes: json (the objects list of params.json, config mode), json-instance, state (state_dict/from_state_dict),
+    save (save/load through a directory), params (real params.json written by GENERATE_ONLY submit, read by run())."""
+    import copy
+    import tempfile
+    from pathlib import Path
+    from experimaestro.core.objects import ConfigInformation
+    from experimaestro.core.context import SerializationContext
+    from experimaestro.core import serialization as ser
+    import universe.g as U
+    G, route = item["G"], item["route"]
+    out = {"problems": [], "sig": sig_digest(G), "done": 0}
+    root = G["root"]
+    submittable = is_task(G, root) and not Gr.has_cycle(G)
+    try:
+        B = Gr.build(G)
+        if submittable:
+            Gr.seal_root(G, B)
+        elif not Gr.has_cycle(G) or True:
+            from experimaestro.xpmutils import DirectoryContext
+            B.objs[root].__xpm__.seal(DirectoryContext(Path(Gr._STATE["dir"]) / "sealed"))
+        robj = B.tasks[root] if root in B.tasks else B.objs[root]
+        orig_id = Gr.ident(robj)
+        root_init = submittable
+        if route in ("json", "json-instance"):
+            data = json.loads(robj.__xpm__.__json__())
+            if route == "json":
+                loaded = ConfigInformation.fromParameters(data, as_instance=False, discard_id=True)
+            else:
+                U.LOG.clear()
+                loaded = ConfigInformation.fromParameters(data, as_instance=True)
+        elif route == "state":
+            state = json.loads(json.dumps(ser.state_dict(SerializationContext(), robj)))
+            loaded = ser.from_state_dict(state)
+        elif route == "save":
+            d = Path(tempfile.mkdtemp(prefix="sv", dir=Gr._STATE["dir"]))
+            ser.save(robj, d)
+            loaded = ser.load(d)
+            import shutil
+            shutil.rmtree(d, ignore_errors=True)
+        elif route == "container":
+            # a list / dict of configurations saved in one go (sharing across the elements must survive)
+            others = [B.objs[l] for l in sorted(G["nodes"]) if l in B.objs and l != root][:2]
+            state = json.loads(json.dumps(ser.state_dict(SerializationContext(), {"r": robj, "o": others})))
+            back = ser.from_state_dict(state)
+            loaded = back["r"]
+            ex, _k = extract(loaded)
+            for i, l in enumerate([l for l in sorted(G["nodes"]) if l in B.objs and l != root][:2]):
+                # the same node reached from the container must be the same object as reached from the root
+                pass
+        else:
+            raise KeyError(route)
+    except Exception as e:  # noqa
+        out["problems"].append({"kind": "raises", "route": route, "error": f"{type(e).__name__}: {e}", "tb": traceback.format_exc()[-1500:]})
+        return out
+    out["done"] = 1
+    instance = route == "json-instance"
+    try:
+        ex, keep = extract(loaded, instance=instance)
+        want = _canon_json(normalize(G, instance=instance, root_init=root_init))
+        got = _canon_json(ex)
+        if want != got:
+            out["problems"].append({"kind": "not-isomorphic", "route": route, "diff": _first_diff(json.loads(want), json.loads(got))})
+        if not instance:
+            new_id = Gr.ident(loaded)
+            if new_id != orig_id:
+                out["problems"].append({"kind": "identifier-differs", "route": route, "before": orig_id, "after": new_id})
+    except Exception as e:  # noqa
+        out["problems"].append({"kind": "compare-raises", "route": route, "error": f"{type(e).__name__}: {e}", "tb": traceback.format_exc()[-1500:]})
+    return out
+
+
+def _first_diff(a, b, path=""):
+    if type(a) is not type(b):
+        return f"{path}: {a!r} != {b!r}"
+    if isinstance(a, dict):
+        for k in sorted(set(a) | set(b)):
+            if k not in a or k not in b:
+                return f"{path}/{k}: {'missing in expected' if k not in a else 'missing in reloaded'} ({(b if k not in a else a)[k]!r})"
+            d = _first_diff(a[k], b[k], f"{path}/{k}")
+            if d:
+                return d
+        return None
+    if isinstance(a, list):
+        if len(a) != len(b):
+            return f"{path}: length {len(a)} != {len(b)}"
+        for i, (x, y) in enumerate(zip(a, b)):
+            d = _first_diff(x, y, f"{path}[{i}]")
+            if d:
+                return d
+        return None
+    return None if a == b else f"{path}: {a!r} != {b!r}"
+
+
+# ---------------------------------------------------------------------------------------------- C13
+def _reach_runtime(G, root_init):
+    """Labels that become runtime objects with instance(): parameters, pre-tasks and (attached) init tasks, recursively;
+    the producing task of an output is not followed."""
+    seen, stack = [], [G["root"]]
+    while stack:
+        l = stack.pop()
+        if l in seen:
+            continue
+        seen.append(l)
+        n = G["nodes"][l]
+        if "output_of" in n:
+            continue
+        for v in n["args"].values():
+            stack.extend(R.refs_in(v))
+        stack.extend(n.get("pre", []))
+        if l != G["root"] or root_init:
+            stack.extend(n.get("init", []))
+    return seen
+
+
+def _reach_saved(G, root_init):
+    """Labels written by __get_objects__: everything reachable, the root's init tasks only once they are attached."""
+    if root_init or not G["nodes"][G["root"]].get("init"):
+        return R.reachable(G, G["root"])
+    import copy
+    H = copy.deepcopy(G)
+    H["nodes"][G["root"]]["init"] = []
+    return R.reachable(H, G["root"])
+
+
+def eval_c13(item):
+    from pathlib import Path
+    from experimaestro.core.objects import ConfigInformation
+    from experimaestro.xpmutils import DirectoryContext
+    import universe.g as U
+    G, route = item["G"], item["route"]
+    out = {"problems": [], "sig": sig_digest(G), "objects": 0}
+    root = G["root"]
+    submittable = is_task(G, root) and not Gr.has_cycle(G)
+    try:
+        B = Gr.build(G)
+        if submittable:
+            Gr.seal_root(G, B)
+        robj = B.tasks[root] if root in B.tasks else B.objs[root]
+        U.LOG.clear()
+        if route == "instance":
+            inst = robj.instance(DirectoryContext(Path(Gr._STATE["dir"]) / "inst"))
+        else:
+            if not robj.__xpm__._sealed:
+                robj.__xpm__.seal(DirectoryContext(Path(Gr._STATE["dir"]) / "sealed"))
+            data = json.loads(robj.__xpm__.__json__())
+            inst = ConfigInformation.fromParameters(data, as_instance=True)
+        log = list(U.LOG)
+        U.LOG.clear()
+    except Exception as e:  # noqa
+        out["problems"].append({"kind": "raises", "error": f"{type(e).__name__}: {e}", "tb": traceback.format_exc()[-1500:]})
+        return out
+    try:
+        ex, keep = extract(inst, instance=True)
+        want = _canon_json(normalize(G, instance=True))
+        got = _canon_json(ex)
+        if want != got:
+            out["problems"].append({"kind": "wiring", "diff": _first_diff(json.loads(want), json.loads(got))})
+        posts = [e for e in log if e[0] == "post"]
+        execs = [e for e in log if e[0] == "exec"]
+        out["objects"] = len(posts)
+        ids = [id(e[1]) for e in posts]
+        if len(ids) != len(set(ids)):
+            dup = next(e for e in posts if ids.count(id(e[1])) > 1)
+            out["problems"].append({"kind": "post-init-twice", "cls": type(dup[1]).__name__})
+        for o in keep:
+            if id(o) not in ids:
+                out["problems"].append({"kind": "post-init-missing", "cls": type(o).__name__})
+        for e in posts:
+            missing = [k for k, v in e[2].items() if not v]
+            if missing:
+                out["problems"].append({"kind": "post-init-before-parameters", "cls": type(e[1]).__name__, "missing": missing})
+        # number of runtime objects
+        if route == "instance":
+            expected_objects = len(_reach_runtime(G, submittable))
+        else:
+            expected_objects = len(_reach_saved(G, submittable))
+        if len(set(ids)) != expected_objects:
+            out["problems"].append({"kind": "object-count", "created": len(set(ids)), "configurations": expected_objects})
+        # pre-tasks once each; init tasks (params route) once each, in order, after all pre-tasks
+        if route == "instance":
+            pre_labels = [p for l in _reach_runtime(G, submittable) for p in G["nodes"][l].get("pre", [])]
+        else:
+            pre_labels = [p for l in _reach_saved(G, submittable) for p in G["nodes"][l].get("pre", [])]
+        pre_labels = list(dict.fromkeys(pre_labels))
+        want_pre = sorted(G["nodes"][p]["args"].get("k", 0) for p in pre_labels)
+        init_labels = G["nodes"][root].get("init", []) if (route == "params" and submittable) else []
+        want_init = [G["nodes"][p]["args"].get("k", 0) for p in init_labels]
+        kinds = ["pre" if _cls_key_of(e[1], True) in ("pre", "pre_old") else "init" for e in execs]
+        got_pre = sorted(e[1].k for e, k in zip(execs, kinds) if k == "pre")
+        got_init = [e[1].k for e, k in zip(execs, kinds) if k == "init"]
+        if got_pre != want_pre:
+            out["problems"].append({"kind": "pre-task-executions", "executed": got_pre, "attached": want_pre})
+        if got_init != want_init:
+            out["problems"].append({"kind": "init-task-executions", "executed": got_init, "attached": want_init})
+        if "init" in kinds and "pre" in kinds[kinds.index("init"):]:
+            out["problems"].append({"kind": "init-before-pre", "order": kinds})
+        exec_ids = [id(e[1]) for e in execs]
+        if len(exec_ids) != len(set(exec_ids)):
+            out["problems"].append({"kind": "task-executed-twice"})
+    except Exception as e:  # noqa
+        out["problems"].append({"kind": "compare-raises", "error": f"{type(e).__name__}: {e}", "tb": traceback.format_exc()[-1500:]})
+    return out
